@@ -165,7 +165,7 @@ func (vr *VerifiableReader) cacheWithReader(ctx context.Context, currentDepth in
 		return fmt.Errorf("tree is too deep (depth:%d)", currentDepth)
 	}
 	rootID := r.RootID()
-	r.ForeachChild(dirID, func(name string, id uint32, mode os.FileMode) bool {
+	if err := r.ForeachChild(dirID, func(name string, id uint32, mode os.FileMode) bool {
 		e, err := r.GetAttr(id)
 		if err != nil {
 			rErr = err
@@ -235,7 +235,9 @@ func (vr *VerifiableReader) cacheWithReader(ctx context.Context, currentDepth in
 		}
 
 		return true
-	})
+	}); err != nil && rErr == nil {
+		rErr = fmt.Errorf("failed to walk directory %d: %w", dirID, err)
+	}
 
 	return
 }
